@@ -5,6 +5,7 @@ import (
 	"fmt"
 	"hash/fnv"
 	"math/rand/v2"
+	"os"
 	"sort"
 	"strings"
 	"testing/synctest"
@@ -74,6 +75,9 @@ type Env struct {
 
 	cleanup []func()
 	start   time.Time
+	// NoAutoAdvance: when nothing is enabled, Drive returns Quiescent instead
+	// of jumping to the next known deadline (position sweeps place the expiry themselves).
+	NoAutoAdvance bool
 }
 
 // Ev is an entry of the global history.
@@ -91,7 +95,7 @@ func newEnv(seed uint64) *Env {
 		Gen:      rand.New(rand.NewPCG(seed, 0x9e3779b97f4a7c15)),
 		sch:      rand.New(rand.NewPCG(seed^0xabcdef12345, 0x1234567)),
 		Notes:    map[string]int{},
-		MaxSteps: 20000,
+		MaxSteps: 400000,
 	}
 	return e
 }
@@ -138,6 +142,9 @@ func (e *Env) Violate(prop, class, site, format string, args ...any) {
 	e.Violations = append(e.Violations, Violation{Property: prop, Class: class, Site: site, Detail: fmt.Sprintf(format, args...)})
 	histMu.Unlock()
 }
+
+// Pt0 is a no-op marker for driver-side actions (kept for readability).
+func (e *Env) Pt0() {}
 
 // Pt is a harness scheduling point: the calling task parks until the driver
 // picks it.
@@ -197,18 +204,23 @@ func (e *Env) initStrategy() {
 
 func (e *Env) pick(acts []action) int {
 	if e.Replay != nil {
-		if e.replayAt < len(e.Replay) {
+		// Subsequence replay: tape entries whose action is not enabled (the
+		// scenario was shrunk, or the tape was thinned) are skipped, so the
+		// relative order of the remaining decisions is preserved.
+		for e.replayAt < len(e.Replay) {
 			want := e.Replay[e.replayAt]
 			e.replayAt++
+			if strings.HasPrefix(want, "O:") || strings.HasPrefix(want, "A:") {
+				continue
+			}
 			for i, a := range acts {
 				if string(a.kind)+":"+a.name == want {
 					return i
 				}
 			}
 			e.Diverged++
-			return 0
 		}
-		return 0 // default policy after the tape: first enabled (run-to-block)
+		return 0 // after the tape: first enabled (run-to-block)
 	}
 	n := len(acts)
 	if n == 1 {
@@ -284,22 +296,19 @@ func (e *Env) order(site string, n int) []int {
 		p[i] = i
 	}
 	if e.Replay != nil {
-		if e.replayAt < len(e.Replay) && strings.HasPrefix(e.Replay[e.replayAt], "O:") {
-			s := e.Replay[e.replayAt][2:]
+		pre := "O:" + site + ":"
+		if e.replayAt < len(e.Replay) && strings.HasPrefix(e.Replay[e.replayAt], pre) {
+			s := e.Replay[e.replayAt][len(pre):]
 			e.replayAt++
 			if len(s) == n {
 				for i := 0; i < n; i++ {
 					p[i] = int(s[i] - '0')
 				}
 			}
-			if e.Record {
-				e.Tape = append(e.Tape, "O:"+s)
-			}
-			return p
 		}
-		// after the tape: program order
+		// otherwise (tape thinned or exhausted): program order
 		if e.Record {
-			e.Tape = append(e.Tape, "O:"+permString(p))
+			e.Tape = append(e.Tape, pre+permString(p))
 		}
 		return p
 	}
@@ -307,7 +316,7 @@ func (e *Env) order(site string, n int) []int {
 		e.sch.Shuffle(n, func(i, j int) { p[i], p[j] = p[j], p[i] })
 	}
 	if e.Record {
-		e.Tape = append(e.Tape, "O:"+permString(p))
+		e.Tape = append(e.Tape, "O:"+site+":"+permString(p))
 	}
 	return p
 }
@@ -347,7 +356,7 @@ func (e *Env) Drive(cond func() bool) Reason {
 		}
 		abuf = e.enabled(abuf, tbuf)
 		if len(abuf) == 0 {
-			if e.advanceToNextTimer() {
+			if !e.NoAutoAdvance && e.advanceToNextTimer() {
 				continue
 			}
 			return Quiescent
@@ -410,6 +419,14 @@ func (e *Env) advanceToNextTimer() bool {
 // know about (goat's 30 s reset-write deadline, tickers) and reports whether
 // anything became enabled.
 func (e *Env) Flush(d time.Duration) bool {
+	if debugLinks {
+		for _, l := range e.links {
+			l.mu.Lock()
+			fmt.Printf("LINK %s inflight=%d arrived=%d readers=%d stalled=%v readErr=%v writeErr=%v\n", l.Name, len(l.inflight), len(l.arrived), len(l.readers), l.stalled, l.readErr, l.writeErr)
+			l.mu.Unlock()
+		}
+		fmt.Print(e.WaitGraph())
+	}
 	e.Advance(d)
 	var tb []*simhook.Task
 	return len(e.enabled(nil, tb)) > 0
@@ -463,8 +480,12 @@ func (e *Env) WaitGraph() string {
 	return sb.String()
 }
 
-// Teardown ends the run: hooks become no-ops, links fail, harness contexts
-// are cancelled, so that every goroutine that can exit does.
+// Teardown ends the run: links fail, harness contexts are cancelled, and the
+// lock-step loop keeps running (run-to-block, no faults) so that every
+// goroutine that can exit does. Hooks stay on: a goroutine that waits for a
+// goat lock whose owner is blocked forever stays parked on a bubble channel
+// (durably blocked) instead of on a real mutex, which synctest could not
+// see through. Whatever is left is reported by Leaked.
 func (e *Env) Teardown() {
 	if e.aborted {
 		return
@@ -476,11 +497,22 @@ func (e *Env) Teardown() {
 	for i := len(e.cleanup) - 1; i >= 0; i-- {
 		e.cleanup[i]()
 	}
-	e.W.Abort()
-	synctest.Wait()
-	// give timers a chance (30 s reset write deadline etc.)
-	time.Sleep(2 * time.Minute)
-	synctest.Wait()
+	e.Replay = nil
+	e.Record = false
+	e.Strategy = StratRunToBlock
+	lim := e.Step + 200000
+	if e.MaxSteps < lim {
+		e.MaxSteps = lim
+	}
+	for i := 0; i < 3; i++ {
+		if e.Drive(nil) == Crashed {
+			break
+		}
+		// goat's 30 s reset-write deadline, tickers
+		if !e.Flush(2 * time.Minute) {
+			break
+		}
+	}
 }
 
 // OnTeardown registers a cleanup (cancel funcs etc.).
@@ -497,6 +529,8 @@ func (e *Env) Leaked() []string {
 	sort.Strings(out)
 	return out
 }
+
+var debugLinks = os.Getenv("VERIF_DEBUG_LINKS") != ""
 
 func hashStr(s string) uint64 {
 	h := fnv.New64a()
